@@ -198,7 +198,8 @@ class ExprInt(Expr):
     def __eq__(self, a):
         if not isinstance(a, ExprInt):
             return False
-        return self.arg == a.arg
+        # constants of different widths are different expressions
+        return self.arg == a.arg and self.arg.size == a.arg.size
     def __hash__(self):
         return hash(self.arg)
     def __repr__(self):
